@@ -93,7 +93,7 @@ unit_fn = make_unit_fn(PROPERTY, check_program)
 
 
 def units_for(ctx: Ctx) -> List[Tuple[str, List[Dict[str, Any]]]]:
-    return space.layer_a_units(ctx.quick) + space.layer_c_units(ctx.quick)
+    return space.layer_a_units(ctx.quick) + space.layer_b_units(ctx.quick) + space.layer_c_units(ctx.quick)
 
 
 def run(ctx: Ctx) -> None:
